@@ -59,8 +59,8 @@ FAM = {
     sigs={"C01": ["value_mismatch"], "C10": ["value_mismatch"]}),
  "F09-odd-stripe-nearest-upscale": dict(
     what="a 2x nearest-neighbour upscaling step (RESIZE_NEAREST_NEIGHBOR lowered to pool operations) striped in a cascade with an odd OFM stripe height: IFM_HEIGHT0 is floor(h/2) although ceil(h/2)+ rows are fetched, so the last row comes through an unused tile base (address 0)",
-    ctx=dict(requires_layers=["RESIZE_NEAREST_NEIGHBOR"], max_layers=8, kind_any=["POOL/AVERAGE", None]),
-    sigs={"C02": ["out_of_extent"], "C03": ["uninit_read", "foreign_read", "foreign_tensor_read"], "C04": ["reads_from_divergence", "async_uninit_read"], "C01": VAL, "C10": VAL}),
+    ctx=dict(requires_layers=["RESIZE_NEAREST_NEIGHBOR"], max_layers=8, kind_any=["POOL/AVERAGE", "DMA", None]),
+    sigs={"C02": ["out_of_extent"], "C03": ["uninit_read", "foreign_read", "foreign_tensor_read"], "C04": ["reads_from_divergence", "async_uninit_read", "inflight_conflict"], "C01": VAL, "C10": VAL}),
 }
 FIXED = [
  "fixed: property=C13 54fac24 every network with weights aborted with OverflowError (int32 memory histogram minus 1<<32 under NumPy 2), live_range.py:149 / scheduler.py:667",
